@@ -157,4 +157,15 @@ REGISTRY = {
                       'statement; cache coherence across histories is the invariant argument of DESIGN 3.1 over these per-operation duties.',
         'explanation': 'handler-set contracts discharged by z3 (quantified)',
     },
+    'C17': {
+        'modules': ['contracts.websocket'], 'level': 'proof',
+        'level_text': 'For every byte string: _parse_messages raises nothing, keeps an incomplete frame whole in the stash and changes '
+                      'nothing else, decodes a complete frame from its own bytes only (locality, by read tracking) against an '
+                      'independently written frame grammar, with fragmentation, ping/pong and close gates; _encode_tail equals the spec '
+                      'encoding for the three length forms and masking; decode(encode(d)) = d with the XOR involution proved by the '
+                      'complete 256x256 table; segmentation invariance then follows by lemmas/Seg.lean.',
+        'level_note': 'trusted: utf-8 decode (uninterpreted total function), os.urandom, str.encode; XOR as uninterpreted function with '
+                      'the table-proved involution; the Lean lemma links per-iteration facts to all segmentations.',
+        'explanation': 'websocket codec contracts discharged by z3/cvc5',
+    },
 }
